@@ -88,6 +88,31 @@ func parseFamilies(tier string) []family {
 		i /= len(pairCtx)
 		return parseInput{Entry: "file", Family: "tag2", Text: strings.Replace(c, "%s", T[i%len(T)]+T[i/len(T)], 1)}
 	}})
+	// (2b) message text: every sequence of up to five pieces over angle brackets, tags, slashes, quotes and letters
+	// inside {msg}, {plural} cases and text next to a placeholder (the body of a message is scanned for HTML tags)
+	mt := []string{"<", ">", "a", " ", "/", "\"", "<b>", "</b>", "< ", "<a href=\"x>y\">", "=", "<1"}
+	msgCtx := []string{"{namespace t}\n/** @param? n */\n{template .t}\n{msg desc=\"d\"}%s{/msg}\n{/template}\n",
+		"{namespace t}\n/** @param? n */\n{template .t}\n{msg desc=\"d\"}{plural $n}{case 1}%s{default}x %s y{/plural}{/msg}\n{/template}\n",
+		"{namespace t}\n/** @param? n */\n{template .t}\n{msg desc=\"d\"}%s{$n}%s{/msg}\n{/template}\n"}
+	nmt := 0
+	for l, p := 1, len(mt); l <= 5; l, p = l+1, p*len(mt) {
+		nmt += p
+	}
+	fams = append(fams, family{"msg-text", nmt, func(i int, r *fw.Rand) parseInput {
+		l, p := 1, len(mt)
+		for i >= p {
+			i -= p
+			l++
+			p *= len(mt)
+		}
+		var b strings.Builder
+		c := i % 3
+		for j := 0; j < l; j++ {
+			b.WriteString(mt[i%len(mt)])
+			i /= len(mt)
+		}
+		return parseInput{Entry: "file", Family: "msg-text", Text: strings.ReplaceAll(msgCtx[c], "%s", b.String())}
+	}})
 	n3 := 100000
 	if thorough {
 		n3 = 8000000
